@@ -3,6 +3,8 @@ package rules
 import (
 	"fmt"
 	"go/ast"
+	"go/token"
+	"go/types"
 	"strings"
 
 	"golang.org/x/tools/go/ssa"
@@ -120,4 +122,226 @@ func (c *Ctx) tokenBuffer(rule, rel string) {
 	}
 	c.R.Exists(rule, rel+"/token pointers are not kept", "-", fmt.Sprintf("%d Peek/Shift calls, no result stored outside locals", calls))
 	_ = load.Mod
+}
+
+// R03.6: the value attribute of an input is dropped only when it equals the type's default.
+func (c *Ctx) r036() {
+	const rule = "R03.6"
+	c.R.Rule(rule, "html.(*Minifier).Minify removes the value attribute of <input> in some cases (`value.Text = nil` in the block that fetches the Type and Value attributes). The conjunction of the conditions dominating each removal is evaluated for every pair of a type in {text, hidden, password, checkbox, radio, submit, reset, button, image, file, …, also in upper case} and a value in {\"\", on, On, ON, x}: a removal is allowed only when the value is exactly what the element has without the attribute — \"on\" for checkbox and radio (compared case-sensitively: the value is submitted as written), \"\" for the types whose default value is the empty string, and never for submit / reset, whose missing value means the browser's default label")
+	pk := c.pkg(rule, "html")
+	if pk == nil {
+		return
+	}
+	info := pk.TypesInfo
+	fd := c.fn(rule, pk, "Minifier.Minify")
+	if fd == nil {
+		return
+	}
+	g := c.graph(pk, fd)
+	// the block: if t, value := attrs[0], attrs[1]; … following attrs := tb.Attributes(Type, Value)
+	var typVar, valVar types.Object
+	var block *ast.IfStmt
+	ast.Inspect(fd.Body, func(x ast.Node) bool {
+		as, ok := x.(*ast.AssignStmt)
+		if !ok || len(as.Rhs) != 1 {
+			return true
+		}
+		call, isCall := ast.Unparen(as.Rhs[0]).(*ast.CallExpr)
+		if !isCall || !strings.HasSuffix(calleeName(info, call), "TokenBuffer).Attributes") || len(call.Args) != 2 {
+			return true
+		}
+		if str(call.Args[0]) != "Type" || str(call.Args[1]) != "Value" {
+			return true
+		}
+		// the statement after it
+		if blk, isBlk := c.P.Parent(as).(*ast.BlockStmt); isBlk {
+			for i, st := range blk.List {
+				if st == ast.Stmt(as) && i+1 < len(blk.List) {
+					if ifs, isIf := blk.List[i+1].(*ast.IfStmt); isIf {
+						if init, isInit := ifs.Init.(*ast.AssignStmt); isInit && len(init.Lhs) == 2 && len(init.Rhs) == 2 {
+							for k := 0; k < 2; k++ {
+								if ix, isIx := init.Rhs[k].(*ast.IndexExpr); isIx {
+									id, _ := init.Lhs[k].(*ast.Ident)
+									if id == nil {
+										continue
+									}
+									switch str(ix.Index) {
+									case "0":
+										typVar = info.Defs[id]
+									case "1":
+										valVar = info.Defs[id]
+									}
+								}
+							}
+							block = ifs
+						}
+					}
+				}
+			}
+		}
+		return true
+	})
+	if block == nil || typVar == nil || valVar == nil {
+		c.R.Unres(rule, "html.Minifier.Minify/input value block", c.pos(fd), "the block that fetches the Type and Value attributes of <input> was not found")
+		return
+	}
+	type env struct{ typ, val string }
+	var evalBytes func(e ast.Expr, en env) (string, bool)
+	evalBytes = func(e ast.Expr, en env) (string, bool) {
+		e = ast.Unparen(e)
+		if sel, ok := e.(*ast.SelectorExpr); ok && sel.Sel.Name == "AttrVal" {
+			if id, isId := sel.X.(*ast.Ident); isId {
+				switch info.Uses[id] {
+				case typVar:
+					return en.typ, true
+				case valVar:
+					return en.val, true
+				}
+			}
+		}
+		if v, err := c.Ev.Expr(pk, e); err == nil {
+			switch b := v.(type) {
+			case []byte:
+				return string(b), true
+			case string:
+				return b, true
+			}
+		}
+		return "", false
+	}
+	var evalB func(e ast.Expr, en env, depth int) (bool, bool)
+	evalB = func(e ast.Expr, en env, depth int) (bool, bool) {
+		e = ast.Unparen(e)
+		switch x := e.(type) {
+		case *ast.UnaryExpr:
+			if x.Op == token.NOT {
+				v, ok := evalB(x.X, en, depth)
+				return !v, ok
+			}
+		case *ast.BinaryExpr:
+			switch x.Op {
+			case token.LAND, token.LOR:
+				l, ok1 := evalB(x.X, en, depth)
+				r, ok2 := evalB(x.Y, en, depth)
+				if !ok1 || !ok2 {
+					return false, false
+				}
+				if x.Op == token.LAND {
+					return l && r, true
+				}
+				return l || r, true
+			case token.EQL, token.NEQ, token.LSS:
+				if isNilExpr(x.Y) || isNilExpr(x.X) {
+					return x.Op == token.NEQ, true // the attributes exist in this block
+				}
+				// len(E) == 0, len(E) != 0, 0 < len(E)
+				for _, pr := range [][2]ast.Expr{{x.X, x.Y}, {x.Y, x.X}} {
+					if call, ok := ast.Unparen(pr[0]).(*ast.CallExpr); ok && len(call.Args) == 1 {
+						if id, isId := call.Fun.(*ast.Ident); isId && id.Name == "len" {
+							if k, isK := intConst(info, pr[1]); isK && k == 0 {
+								s, oks := evalBytes(call.Args[0], en)
+								if !oks {
+									return false, false
+								}
+								switch x.Op {
+								case token.EQL:
+									return len(s) == 0, true
+								case token.NEQ:
+									return len(s) != 0, true
+								case token.LSS:
+									return len(s) > 0, true
+								}
+							}
+						}
+					}
+				}
+			}
+		case *ast.Ident:
+			// a boolean local defined once
+			if depth < 3 {
+				if d := c.singleDef(pk, x); d != nil {
+					return evalB(d, en, depth+1)
+				}
+			}
+		case *ast.CallExpr:
+			switch calleeName(info, x) {
+			case load.ParseMod + ".EqualFold":
+				a, ok1 := evalBytes(x.Args[0], en)
+				b, ok2 := evalBytes(x.Args[1], en)
+				return strings.EqualFold(a, b), ok1 && ok2
+			case "bytes.Equal":
+				a, ok1 := evalBytes(x.Args[0], en)
+				b, ok2 := evalBytes(x.Args[1], en)
+				return a == b, ok1 && ok2
+			}
+		}
+		return false, false
+	}
+	types_ := []string{"text", "hidden", "password", "search", "email", "checkbox", "radio", "submit", "reset", "button", "image", "file", "number", "CHECKBOX", "Radio", "Submit"}
+	vals := []string{"", "on", "On", "ON", "x"}
+	defaultOf := func(t string) (string, bool) {
+		switch strings.ToLower(t) {
+		case "checkbox", "radio":
+			return "on", true
+		case "submit", "reset":
+			return "", false
+		}
+		return "", true
+	}
+	n := 0
+	for _, y := range g.Nodes {
+		rhs, ok := assignsTo(y, func(l ast.Expr) bool {
+			sel, isSel := ast.Unparen(l).(*ast.SelectorExpr)
+			if !isSel || sel.Sel.Name != "Text" {
+				return false
+			}
+			id, isId := sel.X.(*ast.Ident)
+			return isId && info.Uses[id] == valVar
+		})
+		if !ok || !isNilExpr(rhs) {
+			continue
+		}
+		n++
+		var conds []flow.Fact
+		for _, f := range g.DomFacts(y) {
+			if f.Test.Kind == flow.KCond && f.Test.Expr.Pos() >= block.Pos() && f.Test.Expr.End() <= block.End() {
+				conds = append(conds, f)
+			}
+		}
+		var bad []string
+		undecided := ""
+		for _, ty := range types_ {
+			for _, v := range vals {
+				en := env{ty, v}
+				removed := true
+				for _, f := range conds {
+					b, okb := evalB(f.Test.Expr, en, 0)
+					if !okb {
+						undecided = str(f.Test.Expr)
+						continue
+					}
+					if b != f.Value {
+						removed = false
+					}
+				}
+				if !removed {
+					continue
+				}
+				d, has := defaultOf(ty)
+				if !has || d != v {
+					bad = append(bad, fmt.Sprintf("type=%s value=%q", ty, v))
+				}
+			}
+		}
+		construct := fmt.Sprintf("html.Minifier.Minify/input value removal #%d", n)
+		if undecided != "" {
+			c.R.Unres(rule, construct, c.pos(y.Stmt), "condition "+undecided+" could not be evaluated")
+			continue
+		}
+		if len(bad) > 6 {
+			bad = append(bad[:6], "…")
+		}
+		c.R.Check(len(bad) == 0, rule, construct, c.pos(y.Stmt), "only values equal to the type's default", "the value attribute is removed for "+strings.Join(bad, ", ")+": without the attribute the control has a different value (checkbox/radio: \"on\", submit/reset: the default label)")
+	}
+	c.R.Floor(rule, "input value removals", n, 1)
 }
